@@ -140,7 +140,9 @@ void disarm() { W.armed = false; W.plan.clear(); W.gate_eagain = false; W.eagain
 
 inline unsigned char pat(unsigned stream, size_t i) { return (unsigned char)(((i * 2654435761u) >> 13) ^ (i >> 3) ^ (stream * 97u)); }
 double now_ms() { struct timespec ts; clock_gettime(CLOCK_MONOTONIC, &ts); return ts.tv_sec * 1000.0 + ts.tv_nsec / 1e6; }
-bool would_block_code(PError *e) { return e && (p_error_get_code(e) == P_ERROR_IO_WOULD_BLOCK || p_error_get_native_code(e) == EINTR || p_error_get_native_code(e) == EAGAIN); }
+// an internal retry condition reported to the caller: the would-block code, or a native EINTR/EAGAIN behind any code other than timed-out
+// (a genuine time-out legitimately carries the EAGAIN of the attempt that made the call wait)
+bool would_block_code(PError *e) { return e && (p_error_get_code(e) == P_ERROR_IO_WOULD_BLOCK || (p_error_get_code(e) != P_ERROR_IO_TIMED_OUT && (p_error_get_native_code(e) == EINTR || p_error_get_native_code(e) == EAGAIN))); }
 string errstr(PError *e) { if (!e) return "(no error object)"; return "code " + std::to_string(p_error_get_code(e)) + " native " + std::to_string(p_error_get_native_code(e)) + " '" + (p_error_get_message(e) ? p_error_get_message(e) : "") + "'"; }
 
 struct Step { char kind; long a = 0, b = 0; string s; };
@@ -261,10 +263,13 @@ Outcome run_c09(const Case &c) {
     p_socket_set_blocking(ls, c.blocking ? TRUE : FALSE);
     p_socket_set_timeout(ls, 1000);
     std::deque<std::pair<int, size_t>> sent; int dg = 0; // (datagram id, length) sent by the peer, not yet received
+    // loss on loopback only happens when the receive queue overflows: a datagram queued while the outstanding ones (with a generous
+    // per-datagram overhead) stay far below the default receive buffer cannot be lost, so skipping it is a violation, not tolerance
+    std::set<int> cannot_be_lost; auto outstanding = [&]() { size_t t = 0; for (auto &d : sent) t += d.second + 4096; return t; };
     arm(c.plan);
     for (auto &s : c.steps) {
       if (!out.verdict.empty()) break;
-      if (s.kind == 'D') { size_t n = (size_t)std::max<long>(1, std::min<long>(s.a, 65507)); string b(n, 0); for (size_t i = 0; i < n; i++) b[i] = (char)pat(100 + (unsigned)dg, i); if (sendto(raw, b.data(), n, 0, (sockaddr *)&lsa, lsl) == (ssize_t)n) sent.push_back({dg, n}); dg++; usleep(300); }
+      if (s.kind == 'D') { size_t n = (size_t)std::max<long>(0, std::min<long>(s.a, 65507)); if (n == 0) vl::stats().klass("udp_empty_datagram"); /* an empty datagram is a datagram */ string b(n, 0); for (size_t i = 0; i < n; i++) b[i] = (char)pat(100 + (unsigned)dg, i); if (sendto(raw, b.data(), n, 0, (sockaddr *)&lsa, lsl) == (ssize_t)n) { if (outstanding() + n + 4096 < 60000) cannot_be_lost.insert(dg); sent.push_back({dg, n}); } dg++; usleep(300); }
       else if (s.kind == 'R') {
         size_t bl = (size_t)std::max<long>(1, std::min<long>(s.a, 70000));
         if (sent.empty() && c.blocking) continue;  // a blocking receive with nothing in flight would only time out (C10 territory)
@@ -276,7 +281,10 @@ Outcome run_c09(const Case &c) {
         if (n < 0) {
           if (c.blocking && would_block_code(err)) fail("blocking-reports-retry", "blocking receive_from reported an internal would-block / interrupted condition: " + errstr(err));
           else if (!c.blocking && err && p_error_get_code(err) == P_ERROR_IO_WOULD_BLOCK) { /* fine */ }
-          else if (c.blocking && err && p_error_get_code(err) == P_ERROR_IO_TIMED_OUT) { vl::stats().count("udp_datagrams_lost_or_late"); sent.clear(); }
+          else if (c.blocking && err && p_error_get_code(err) == P_ERROR_IO_TIMED_OUT) {
+            // loopback delivery is synchronous: a datagram sent before this call sits in the queue already
+            for (auto &d : sent) if (cannot_be_lost.count(d.first)) { fail("udp-loss", "receive_from timed out although datagram #" + std::to_string(d.first) + " (" + std::to_string(d.second) + " bytes) had been queued on an almost empty loopback socket before the call"); break; }
+            vl::stats().count("udp_datagrams_lost_or_late"); sent.clear(); }
           else if (!sent.empty()) fail("udp-receive", "receive_from failed although a datagram is in flight: " + errstr(err));
         } else {
           // match the received datagram with the oldest outstanding one (loss of older datagrams is tolerated and counted)
@@ -285,17 +293,19 @@ Outcome run_c09(const Case &c) {
             auto d = sent.front(); sent.pop_front();
             size_t want = std::min(d.second, bl);
             if ((size_t)n == want) { bool same = true; for (size_t i = 0; i < want; i++) if ((unsigned char)buf[i] != pat(100 + (unsigned)d.first, i)) { same = false; break; } if (same) { matched = true; break; } }
+            if (cannot_be_lost.count(d.first)) { fail("udp-loss", "datagram #" + std::to_string(d.first) + " (" + std::to_string(d.second) + " bytes) was queued on an almost empty loopback socket but was never delivered: a later datagram was returned in its place"); break; }
             vl::stats().count("udp_datagrams_skipped");
           }
+          if (!out.verdict.empty()) { if (from) p_socket_address_free(from); if (err) p_error_free(err); free(buf); break; }
           if (!matched) fail("udp-datagram", "received datagram (" + std::to_string(n) + " bytes) is not any sent datagram cut to the buffer length " + std::to_string(bl));
           if (!from) fail("udp-sender", "receive_from did not report the sender address");
           else { if (p_socket_address_get_port(from) != rport) fail("udp-sender", "receive_from reported sender port " + std::to_string(p_socket_address_get_port(from)) + ", the sender is bound to " + std::to_string(rport)); pchar *t = p_socket_address_get_address(from); if (!t || strcmp(t, fam == 6 ? "::1" : "127.0.0.1")) fail("udp-sender", "receive_from reported a wrong sender address"); p_free(t); }
         }
         if (from) p_socket_address_free(from); if (err) p_error_free(err); free(buf);
       } else if (s.kind == 'S') {
-        size_t n = (size_t)std::max<long>(1, std::min<long>(s.a, 65507)); string b(n, 0); for (size_t i = 0; i < n; i++) b[i] = (char)pat(7, i + (size_t)s.b);
+        size_t n = (size_t)std::max<long>(0, std::min<long>(s.a, 65507)); string b(n, 0); for (size_t i = 0; i < n; i++) b[i] = (char)pat(7, i + (size_t)s.b);
         PError *err = NULL; long faults0 = W.faults_consumed;
-        pssize r = p_socket_send_to(ls, peer_addr, b.data(), n, &err);
+        pssize r = p_socket_send_to(ls, peer_addr, n ? b.data() : "", n, &err);
         if (W.faults_consumed > faults0 && c.blocking) fault_in_blocking = true;
         if (r < 0) { if (c.blocking && would_block_code(err)) fail("blocking-reports-retry", "blocking send_to reported an internal would-block / interrupted condition: " + errstr(err)); }
         else {
@@ -334,7 +344,8 @@ Outcome run_c09(const Case &c) {
     p_socket_bind(srv, la, TRUE, NULL); p_socket_listen(srv, NULL); p_socket_address_free(la);
     PSocketAddress *loc = p_socket_get_local_address(srv, NULL); int port = p_socket_address_get_port(loc); p_socket_address_free(loc);
     rawfd = socket(fam == 6 ? AF_INET6 : AF_INET, SOCK_STREAM, 0); sockaddr_storage a; socklen_t al = loop_addr(fam, port, a);
-    if (connect(rawfd, (sockaddr *)&a, al) != 0) { fail("setup", "raw connect failed"); p_socket_free(srv); close(rawfd); return out; }
+    // the harness's own connect may be hit by the signal storm of a C19 scenario: retry; a set-up that still fails decides nothing
+    { int cr; do cr = connect(rawfd, (sockaddr *)&a, al); while (cr != 0 && errno == EINTR); if (cr != 0 && errno != EISCONN && errno != EALREADY && errno != EINPROGRESS) { out.inconclusive = true; p_socket_free(srv); close(rawfd); return out; } }
     arm(c.plan);
     PError *err = NULL;
     ls = p_socket_accept(srv, &err);
@@ -391,8 +402,9 @@ Outcome run_c09(const Case &c) {
         string b(n, 0); for (size_t i = 0; i < n; i++) b[i] = (char)pat(1, out_pos + i);
         PError *err = NULL; pssize r = p_socket_send(ls, b.data(), n, &err);
         if (r < 0) {
-          if (would_block_code(err)) fail("blocking-reports-retry", "blocking send with timeout reported an internal would-block / interrupted condition: " + errstr(err));
-          else if (!err || p_error_get_code(err) != P_ERROR_IO_TIMED_OUT) fail("send", "blocking send with timeout to a stalled (live) peer failed with " + errstr(err) + " instead of timed-out");
+          if (err && p_error_get_code(err) == P_ERROR_IO_TIMED_OUT) { /* the real reason (its native code may still show the EAGAIN that led to the wait) */ }
+          else if (would_block_code(err)) fail("blocking-reports-retry", "blocking send with timeout reported an internal would-block / interrupted condition: " + errstr(err));
+          else fail("send", "blocking send with timeout to a stalled (live) peer failed with " + errstr(err) + " instead of timed-out");
           timed_out = true;
         } else if (r == 0 || (size_t)r > n) fail("send", "send returned " + std::to_string(r) + " for " + std::to_string(n) + " bytes");
         else { if ((size_t)r < n) { short_seen = true; vl::stats().klass("short_send"); } out_pos += (size_t)r; }
@@ -542,7 +554,7 @@ Outcome run_c10(const Case &c) {
       else if (m.connected && m.tcp && m.raw_peers.size() && !m.shut_wr) { W.eagain_ok = m.blocking; pssize r = p_socket_send(m.s, "hello", 5, &err); W.eagain_ok = false; if (r != 5) fail("send", "send of 5 bytes on a connected socket returned " + std::to_string(r) + " " + errstr(err)); else { char b[16]; struct pollfd rp = {m.raw_peers.back(), POLLIN, 0}; poll(&rp, 1, 2000); ssize_t n = recv(m.raw_peers.back(), b, sizeof b, MSG_DONTWAIT); if (n != 5 || memcmp(b, "hello", 5)) fail("send", "peer did not receive the 5 bytes sent"); } }
     } else if (cmd == "shutdown") {
       long cb = W.calls_total; bool rd = arg & 1, wr = arg & 2;
-      if (m.closed) { pboolean r = p_socket_shutdown(m.s, rd, wr, &err); if (!r) expect_not_available(i, "shutdown", true, err, cb); else if (W.calls_total != cb) fail("closed-io-touch", "shutdown on a closed socket touched a descriptor"); }
+      if (m.closed) { pboolean r = p_socket_shutdown(m.s, rd, wr, &err); expect_not_available(i, "shutdown", !r, err, cb); /* every flag combination, also (FALSE, FALSE): "every I/O call fails with a not-available error" */ }
       else if (m.connected && (rd || wr)) { if (p_socket_shutdown(m.s, rd, wr, &err)) { if (rd) m.shut_rd = true; if (wr) m.shut_wr = true; if (rd && wr) m.connected = false; } }
     } else if (cmd == "close") {
       long cb = W.calls_total;
@@ -739,7 +751,7 @@ rc::Gen<Fault> genFault(const vector<string> &calls, bool only_eintr) {
 }
 rc::Gen<Case> genC09() {
   using namespace rc;
-  auto size = gen::weightedOneOf<long>({{6, gen::element<long>(1, 2, 1023, 1024, 4096, 65507, 70000)}, {2, gen::map(rng(1, 200000), [](int v) { return (long)v; })}, {1, gen::just(1L << 20)}});
+  auto size = gen::weightedOneOf<long>({{6, gen::element<long>(0, 1, 2, 1023, 1024, 4096, 65507, 70000)}, {2, gen::map(rng(1, 200000), [](int v) { return (long)v; })}, {1, gen::just(1L << 20)}});
   auto step = gen::map(gen::tuple(gen::weightedElement<char>({{10, 'S'}, {10, 'R'}, {8, 'P'}, {6, 'D'}, {1, 'T'}}), size), [](const std::tuple<char, long> &t) { Step s; s.kind = std::get<0>(t); s.a = std::get<1>(t); return s; });
   return gen::map(gen::tuple(gen::element(4, 4, 6), gen::element<string>("tcp_client", "tcp_server", "udp"), gen::weightedElement<int>({{4, 1}, {1, 0}}), gen::element(0, 0, 2048, 8192), rng(0, 3),
                              gen::resize(4, gen::container<vector<Fault>>(genFault({"send", "recv", "sendto", "recvfrom", "poll", "connect", "accept"}, false))), gen::resize(14, gen::container<vector<Step>>(step)), rng(0, 6)),
@@ -805,7 +817,7 @@ void enumerate(const string &prop, long shard, long nshards) {
             if ((idx++ % nshards) != shard) continue;
             Case c; c.prop = "C09"; c.fam = 4; c.kind = kind; c.blocking = 1; c.sndbuf = 4096; c.peer_mode = k % 3;
             Fault f; f.call = call; f.k = k; f.kind = fk; f.arg = 100; f.burst = 1 + k % 3; c.plan.push_back(f);
-            if (udp) c.steps = {Step{'D', 100, 0}, Step{'D', 2000, 0}, Step{'R', 4096, 0}, Step{'S', 500, 0}, Step{'R', 1000, 0}, Step{'D', 65507, 0}, Step{'R', 70000, 0}, Step{'S', 9000, 0}};
+            if (udp) c.steps = {Step{'D', 100, 0}, Step{'D', 2000, 0}, Step{'R', 4096, 0}, Step{'S', 500, 0}, Step{'R', 1000, 0}, Step{'D', 0, 0}, Step{'R', 64, 0}, Step{'D', 65507, 0}, Step{'R', 70000, 0}, Step{'S', 9000, 0}, Step{'S', 0, 0}};
             else c.steps = {Step{'P', 5000, 0}, Step{'S', 3000, 0}, Step{'R', 1024, 0}, Step{'S', 100000, 0}, Step{'R', 4096, 0}, Step{'S', 1, 0}, Step{'P', 70000, 0}, Step{'R', 70000, 0}, Step{'R', 70000, 0}};
             exec("enum", c, false);
           }
